@@ -41,6 +41,12 @@ chk("C18", "venum",
     "Trusted: x/net/html as the browser's parser. Only single-field injections with the stated payload set; Okta pages not reachable without an Okta backend.",
     "DESIGN.md 3 C18")
 
+chk("C11", "venum",
+    "exhaustive enumeration of prefix lengths x base addresses x boundary peers x peer forms, and of structurally corrupted extensions, on the real library functions and the real mint/refresh/certgen handlers; oracle is uint32 arithmetic",
+    "All prefix lengths 0-32 x 7 base addresses x boundary peers (network, broadcast, one below/above, middle, single-bit flips) in IPv4, IPv4-mapped, IPv6, zoned, port-less and textual forms, plus disjoint/nested/duplicate/adjacent/64-block lists, are minted with the real code (library and /v1/getRoleRequestingCert), read back, and used to authenticate /v1/refreshRoleRequestingCert and /certgen/ with realistic verified chains from every peer; the refreshed certificate must carry the same identity and blocks and be obtainable only from inside. ~370 corrupted extension values (bit lengths 0-48/64/128, wrong family, 300 blocks, every truncation and three flips per byte) in certificates signed by the role CA and by the operator CA must be refused without panic and never admit a peer no well-formed block covers.",
+    "Trusted: crypto/x509 verification; encoding/asn1 for building test extensions. Only IPv4 blocks exist in the code; IPv6 blocks are out of scope.",
+    "DESIGN.md 3 C11")
+
 NOT_YET = {
 }
 
